@@ -1,6 +1,7 @@
 package checks
 
 import (
+	"strconv"
 	"bufio"
 	"bytes"
 	"encoding/json"
@@ -38,6 +39,7 @@ type wcase struct {
 	Ext    []string `json:"ext,omitempty"`
 	HasExt bool     `json:"has_ext,omitempty"`
 	Poison int      `json:"poison,omitempty"`
+	Par    int      `json:"par,omitempty"`
 }
 
 type wres struct {
@@ -156,6 +158,14 @@ func runC17(c *Ctx) bool {
 		emit("size-extreme", "- a\n  - b\n  "+long)
 		emit("size-extreme", "\n\n"+long+"\n  - kid\n")
 	}
+	// nesting deeper than 1024 levels (every line far below the scanner limit)
+	for _, depth := range []int{1030, 1100}[:c.Pick(1, 2)] {
+		var sb strings.Builder
+		for d := 0; d < depth; d++ {
+			sb.WriteString(strings.Repeat(" ", d) + "- n" + strconv.Itoa(d%10) + "\n")
+		}
+		emit("deep-chain", sb.String())
+	}
 	nMax := c.Pick(5, 7)
 	gen.ForEachLabeled(nMax, 2, ExtAlphabet, func(i int, f model.Forest) {
 		sps := gen.SixSpellings(uint64(i))
@@ -201,6 +211,9 @@ func runC17(c *Ctx) bool {
 func evalC17(c *Ctx, cs *Case, d *c17Drivers) {
 	doc := cs.Doc
 	for _, m := range c17Modes {
+		if cs.Kind == "deep-chain" && m.name != "json" && (c.Quick() || (m.name != "text" && m.name != "dry")) {
+			continue // rendering text is quadratic in the depth: JSON in the quick tier, one mode of each kind in the thorough tier
+		}
 		wc := wcase{Doc: doc, Mode: m.mode}
 		if m.branch != 0 {
 			b := BranchTuples[m.branch]
@@ -213,6 +226,11 @@ func evalC17(c *Ctx, cs *Case, d *c17Drivers) {
 		if k := int(gen.HashString(string(doc)+m.name) % 9); k < 3 {
 			wc.Poison = k + 1
 			c.Count("preceded_by_a_failed_writer_call", 1)
+		}
+		if k := int(gen.HashString(m.name+string(doc)) % 32); k == 0 && len(doc) < 20000 {
+			// one request in 32 is additionally made 4 x 25 times from four goroutines at once inside each driver
+			wc.Par = 4
+			c.Count("made_four_times_concurrently", 1)
 		}
 		line, _ := json.Marshal(wc)
 		line = append(line, '\n')
